@@ -242,6 +242,8 @@ class Runner:
         self.mode = mode
         self.opts = opts or {}
         self.saved = {}    # run id -> [(values returned by get_value at an answer, their image at that time, to_python image)]
+        self.qargs = {}    # run id -> the goal's argument terms as built (raw functors with variables inside)
+        self.built = {}    # run id -> lists built with makelist from the query variables at earlier answers
         self.yps = [YP() for _ in range(scn.get("engines", 1))]
         self.q = {}        # run id -> [generator] (a list so that the reference can be dropped)
         self.qv = {}       # run id -> query variables
@@ -262,6 +264,8 @@ class Runner:
         goal = op["goal"]
         args = [build(yp, a, env) for a in goal.get("a", [])]
         self.qv[op["r"]] = vs
+        self.qargs[op["r"]] = args
+        self.built[op["r"]] = []
         if self.opts.get("check_nlog"):
             del self.nstate.log[:]     # the specification logs per run; one run at a time in these families
         self.q[op["r"]] = [yp.query(goal["n"], args)]
@@ -293,6 +297,31 @@ class Runner:
                 except Exception as e:     # compared only where the specification defines to_python
                     o["py"].append({"exception": type(e).__name__})
             self.saved.setdefault(r, []).append((gv, o["ans"], o["py"]))
+            # the accessors applied to the terms the consumer passed in (raw functors)
+            args = self.qargs.get(r, [])
+            try:
+                o["gargs"] = project_raw_tuple([engine.get_value(a) for a in args])
+            except Exception as e:
+                o["gargs"] = [{"exception": type(e).__name__}]
+            o["pyargs"] = []
+            for a in args:
+                try:
+                    o["pyargs"].append(py_image(engine.to_python(a)))
+                except Exception as e:
+                    o["pyargs"].append({"exception": type(e).__name__})
+            # a list built with makelist from the query variables at an EARLIER answer holds the variables
+            # themselves: it must show this answer's bindings now
+            yp = self.yps[0]
+            for lst in self.built.get(r, []):
+                elems = []
+                x = walk(lst)
+                while isinstance(x, Functor) and x._name == "." and len(x._args) == 2:
+                    elems.append(x._args[0])
+                    x = walk(x._args[1])
+                if project_tuple(elems) != o["ans"]:
+                    o["makelist_stale"] = {"list_now": project_tuple(elems), "answer": o["ans"]}
+            if self.qv[r]:
+                self.built.setdefault(r, []).append(yp.makelist(list(self.qv[r])))
         return o
 
     def check_saved(self, r):
@@ -410,16 +439,19 @@ class Runner:
             r = op["r"]
             answers = []
             gvs, pys = [], []
+            stale_list = None
             while True:
                 o = self.one_next(r)
                 if o["k"] == "answer":
                     answers.append(o["ans"])
                     gvs.append(o.get("gv")); pys.append(o.get("py"))
+                    if o.get("makelist_stale"):
+                        stale_list = o["makelist_stale"]
                     if op["k"] and len(answers) == op["k"]:
                         self.close(r, "close")
-                        return {"k": "solve", "answers": answers, "end": "closed", "gvs": gvs, "pys": pys, "stale": self.check_saved(r)}
+                        return {"k": "solve", "answers": answers, "end": "closed", "gvs": gvs, "pys": pys, "stale": self.check_saved(r), "makelist_stale": stale_list}
                 else:
-                    return {"k": "solve", "answers": answers, "end": o["k"], "exc": o.get("exc"), "gvs": gvs, "pys": pys, "stale": self.check_saved(r)}
+                    return {"k": "solve", "answers": answers, "end": o["k"], "exc": o.get("exc"), "gvs": gvs, "pys": pys, "stale": self.check_saved(r), "makelist_stale": stale_list}
         raise ValueError(k)
 
     def snapshot(self):
